@@ -461,4 +461,121 @@ Section MatThm.
     - rewrite (find_last_none tgt gdim I H). reflexivity.
     - rewrite (find_last_none tgt gdim J H).
       destruct (find_last (fun i => Nat.eqb (tgt i) I) gdim); reflexivity. Qed.
+
+  (* ---- the embedded matrix is unitary ---- *)
+  Lemma find_last_some (tgt : nat -> nat) n I i :
+    find_last (fun k => Nat.eqb (tgt k) I) n = Some i -> i < n /\ tgt i = I.
+  Proof. unfold find_last. intros F. apply find_some in F. destruct F as [Hin Hx].
+    rewrite <- in_rev, in_seq in Hin. apply Nat.eqb_eq in Hx. split; [lia | exact Hx]. Qed.
+  Lemma find_last_none_inv (tgt : nat -> nat) n I :
+    find_last (fun k => Nat.eqb (tgt k) I) n = None -> forall k, k < n -> tgt k <> I.
+  Proof. unfold find_last. intros F k Hk E. pose proof (find_none _ _ F k) as H.
+    rewrite <- in_rev, in_seq in H. specialize (H ltac:(lia)). apply Nat.eqb_neq in H. auto. Qed.
+
+  Lemma sum_point n p f : p < n ->
+    sum n f = sum n (fun K => if Nat.eqb K p then t0 else f K) +! f p.
+  Proof.
+    induction n; intros Hp; [lia|]. simpl. destruct (Nat.eq_dec p n) as [->|Hne].
+    - rewrite Nat.eqb_refl. rewrite (sum_ext n (fun K => if Nat.eqb K n then t0 else f K) f).
+      + ring.
+      + intros k Hk. destruct (Nat.eqb k n) eqn:E; [apply Nat.eqb_eq in E; lia | reflexivity].
+    - rewrite IHn by lia. destruct (Nat.eqb n p) eqn:E; [apply Nat.eqb_eq in E; lia | ring].
+  Qed.
+
+  (* a function supported on the image of an injection sums like its pull-back *)
+  Lemma sum_support (tgt : nat -> nat) n : forall g f,
+    (forall a b, a < g -> b < g -> tgt a = tgt b -> a = b) ->
+    (forall k, k < g -> tgt k < n) ->
+    (forall K, K < n -> (forall k, k < g -> tgt k <> K) -> f K = t0) ->
+    sum n f = sum g (fun k => f (tgt k)).
+  Proof.
+    induction g; intros f Hinj Hr Hs.
+    - simpl. apply sum_zero. intros K HK. apply Hs; auto. intros k Hk; lia.
+    - simpl. rewrite (sum_point n (tgt g) f) by (apply Hr; lia). f_equal.
+      rewrite (IHg (fun K => if Nat.eqb K (tgt g) then t0 else f K)).
+      + apply sum_ext. intros k Hk. destruct (Nat.eqb (tgt k) (tgt g)) eqn:E; auto.
+        apply Nat.eqb_eq in E. apply Hinj in E; lia.
+      + intros a b Ha Hb. apply Hinj; lia.
+      + intros k Hk. apply Hr; lia.
+      + intros K HK Hno. destruct (Nat.eqb K (tgt g)) eqn:E; auto. apply Nat.eqb_neq in E.
+        apply Hs; auto. intros k Hk. destruct (Nat.eq_dec k g) as [->|Hne]; [congruence | apply Hno; lia].
+  Qed.
+
+  Section Embedded.
+    Variables (gdim n : nat) (tgt : nat -> nat).
+    Hypothesis tgt_inj : forall a b, a < gdim -> b < gdim -> tgt a = tgt b -> a = b.
+    Hypothesis tgt_range : forall k, k < gdim -> tgt k < n.
+    Notation emb U := (map_matrix gdim tgt U idm).
+
+    Lemma emb_adj U I J : adj (emb U) I J = emb (adj U) I J.
+    Proof.
+      unfold madj, map_matrix.
+      destruct (find_last (fun i => Nat.eqb (tgt i) I) gdim); destruct (find_last (fun j => Nat.eqb (tgt j) J) gdim);
+        auto; unfold mid; rewrite (Nat.eqb_sym J I); destruct (Nat.eqb I J); auto.
+    Qed.
+
+    Lemma emb_half U : meq gdim (mul gdim U (adj U)) idm -> meq n (mul n (emb U) (adj (emb U))) idm.
+    Proof.
+      intros HU I J HI HJ. unfold mmul.
+      destruct (find_last (fun i => Nat.eqb (tgt i) I) gdim) as [i|] eqn:FI;
+        destruct (find_last (fun j => Nat.eqb (tgt j) J) gdim) as [j|] eqn:FJ.
+      - (* both on the embedded levels *)
+        destruct (find_last_some _ _ _ _ FI) as [Hi EI]. destruct (find_last_some _ _ _ _ FJ) as [Hj EJ]. subst I J.
+        rewrite (sum_support tgt n gdim); auto.
+        + transitivity (mul gdim U (adj U) i j).
+          * unfold mmul. apply sum_ext. intros k Hk. unfold madj.
+            rewrite !map_matrix_on by auto. reflexivity.
+          * rewrite HU by auto. unfold mid. destruct (Nat.eq_dec i j) as [->|Hne]; [rewrite !Nat.eqb_refl; reflexivity|].
+            replace (Nat.eqb i j) with false by (symmetry; apply Nat.eqb_neq; auto).
+            replace (Nat.eqb (tgt i) (tgt j)) with false; auto.
+            symmetry; apply Nat.eqb_neq. intro E. apply Hne. apply tgt_inj; auto.
+        + intros K HK Hno. rewrite (map_matrix_off gdim tgt U idm (tgt i) K) by (right; exact Hno).
+          unfold mid. destruct (Nat.eqb (tgt i) K) eqn:E; [|ring].
+          apply Nat.eqb_eq in E. exfalso. apply (Hno i Hi E).
+      - (* I embedded, J untouched: only K = J can contribute, and E(I,J) = 0 *)
+        destruct (find_last_some _ _ _ _ FI) as [Hi EI]. pose proof (find_last_none_inv _ _ _ FJ) as NJ. subst I.
+        rewrite (sum_single n J); auto.
+        + unfold madj. rewrite (map_matrix_off gdim tgt U idm (tgt i) J) by (right; exact NJ).
+          unfold mid. destruct (Nat.eqb (tgt i) J) eqn:E; [apply Nat.eqb_eq in E; exfalso; apply (NJ i Hi E)|]. ring.
+        + intros K HK Hne. unfold madj. rewrite (map_matrix_off gdim tgt U idm J K) by (left; exact NJ).
+          unfold mid. replace (Nat.eqb J K) with false by (symmetry; apply Nat.eqb_neq; auto).
+          rewrite conj_0. ring.
+      - (* I untouched, J embedded *)
+        pose proof (find_last_none_inv _ _ _ FI) as NI. destruct (find_last_some _ _ _ _ FJ) as [Hj EJ]. subst J.
+        rewrite (sum_single n I); auto.
+        + unfold madj. rewrite (map_matrix_off gdim tgt U idm (tgt j) I) by (right; exact NI).
+          unfold mid. destruct (Nat.eqb (tgt j) I) eqn:E; [apply Nat.eqb_eq in E; exfalso; apply (NI j Hj E)|].
+          rewrite conj_0.
+          replace (Nat.eqb I (tgt j)) with false
+            by (symmetry; apply Nat.eqb_neq; intro E2; apply (NI j Hj); auto).
+          ring.
+        + intros K HK Hne. rewrite (map_matrix_off gdim tgt U idm I K) by (left; exact NI).
+          unfold mid. replace (Nat.eqb I K) with false by (symmetry; apply Nat.eqb_neq; auto). ring.
+      - (* both untouched: identity block *)
+        pose proof (find_last_none_inv _ _ _ FI) as NI. pose proof (find_last_none_inv _ _ _ FJ) as NJ.
+        transitivity (mul n idm (adj idm) I J).
+        + unfold mmul. apply sum_ext. intros K HK. unfold madj.
+          rewrite (map_matrix_off gdim tgt U idm I K) by (left; exact NI).
+          rewrite (map_matrix_off gdim tgt U idm J K) by (left; exact NJ). reflexivity.
+        + apply (proj1 (unitary_id n)); auto.
+    Qed.
+
+    Lemma emb_ext U V I J : (forall i j, U i j = V i j) -> emb U I J = emb V I J.
+    Proof. intros E. unfold map_matrix.
+      destruct (find_last (fun i => Nat.eqb (tgt i) I) gdim); destruct (find_last (fun j => Nat.eqb (tgt j) J) gdim); auto. Qed.
+
+    Theorem embedded_unitary U : unitary gdim U -> unitary n (emb U).
+    Proof.
+      intros [H1 H2]. split.
+      - apply emb_half; exact H1.
+      - (* (emb U)^dagger (emb U) = emb(U^dagger) (emb(U^dagger))^dagger *)
+        intros I J HI HJ.
+        assert (F2 : forall K, emb U K J = adj (emb (adj U)) K J).
+        { intros K. rewrite emb_adj. apply emb_ext. intros i j. symmetry. apply madj_invol. }
+        transitivity (mul n (emb (adj U)) (adj (emb (adj U))) I J).
+        + unfold mmul. apply sum_ext. intros K HK. cbv beta. rewrite (emb_adj U I K), (F2 K). reflexivity.
+        + apply emb_half; auto. intros i j Hi Hj. rewrite <- (H2 i j Hi Hj).
+          unfold mmul. apply sum_ext. intros k _. rewrite madj_invol. reflexivity.
+    Qed.
+  End Embedded.
 End MatThm.
